@@ -102,8 +102,11 @@ def gen_history(rng, n_ops, nxt):
     return lines
 
 
-def gen_case(rng, thorough):
-    if rng.random() < 0.25:
+def gen_case(rng, thorough, fixed=None):
+    """`fixed` pins some of the choices (the deterministic grid run on every seed); the remaining ones
+    still come from `rng`."""
+    fixed = fixed or {}
+    if not fixed and rng.random() < 0.25:
         return gen_case_equal(rng, thorough)
     nxt = itertools.count(1)
     factor = rng.choice(["6/5", "5/4", "2", "5/4"])
@@ -113,10 +116,15 @@ def gen_case(rng, thorough):
     qlen = rng.choice([1, 2, 3, 5, 9, 10, 11, 17, 40] + ([100, 200] if thorough else []))
     positional = rng.random() < 0.5
     pos_every = rng.choice([1, 2, 3])
+    factor, draw = fixed.get("factor", factor), fixed.get("draw", draw)
+    n_hist, drains, qlen = fixed.get("n_hist", n_hist), fixed.get("drains", drains), fixed.get("qlen", qlen)
+    positional, pos_every = fixed.get("positional", positional), fixed.get("pos_every", pos_every)
     # re-keying the straggler during the load (priority inheritance / task_reschedule do this):
     #  "noop"  = to its own, unchanged priority, every few rounds from the start;
     #  "urgent" = to a more urgent (still less urgent than the stream) priority after it was boosted
     rekey = rng.choice([None, None, None, "noop", "urgent"])
+    if "rekey" in fixed:
+        rekey = fixed["rekey"]
     if rekey:
         draw = rng.choice(["1/4", "1/2"])
         factor = "6/5"
@@ -127,7 +135,7 @@ def gen_case(rng, thorough):
             # drain to empty: pop len+slack times (extra pops just answer IndexError)
             lines += ["pos 0 popleft"] * (n_hist // max(1, drains) + 3)
     withdrawn = 0
-    if rng.random() < 0.3:
+    if fixed.get("withdrawn", rng.random() < 0.3) if "withdrawn" in fixed else rng.random() < 0.3:
         # entries withdrawn with find(remove=True) (queue_find(remove=True) of task_switch & co.):
         # they leave the queue without passing through popleft/remove
         withdrawn = rng.choice([12, 40, 90])
@@ -424,9 +432,28 @@ def corpus_cases():
     return out
 
 
+def grid():
+    """the situations every run must contain, whatever the seed: an overtaking draw with and without
+    positional entries at the head while maintenance runs, short and long queues, a long undrained
+    history, withdrawals by find(remove=True), and the two re-key modes"""
+    g = []
+    for qlen in (2, 3, 10, 17):
+        for positional, pos_every in ((False, 1), (True, 1), (True, 2), (True, 3)):
+            g.append(dict(qlen=qlen, positional=positional, pos_every=pos_every, draw="15/16", factor="6/5",
+                          n_hist=0, drains=0, rekey=None, withdrawn=False))
+    g.append(dict(qlen=5, positional=False, draw="15/16", factor="6/5", n_hist=1500, drains=0, rekey=None, withdrawn=False))
+    g.append(dict(qlen=5, positional=True, pos_every=2, draw="15/16", factor="6/5", n_hist=200, drains=1, rekey=None, withdrawn=False))
+    g.append(dict(qlen=5, positional=False, draw="15/16", factor="6/5", n_hist=20, drains=0, rekey=None, withdrawn=True))
+    g.append(dict(qlen=5, positional=False, n_hist=0, drains=0, rekey="noop", withdrawn=False))
+    g.append(dict(qlen=5, positional=False, n_hist=0, drains=0, rekey="urgent", withdrawn=False))
+    g.append(dict(qlen=3, positional=True, pos_every=1, draw="1/2", factor="6/5", n_hist=0, drains=0, rekey=None, withdrawn=False))
+    return g
+
+
 def run(ctx):
     rng = ctx.rng
     explore(ctx, corpus_cases(), label="corpus: ")
+    explore(ctx, [gen_case(rng, ctx.thorough(), fixed=f) for f in grid()], label="grid: ")
     n = 400 if ctx.thorough() else 70
     cases = [gen_case(rng, ctx.thorough()) for _ in range(n)]
     explore(ctx, cases)
